@@ -494,7 +494,17 @@ def r6_bound_address(prog, run):
                 for c in prog.callee_fns(g, n):
                     if c.entry is None or c.record != 'QXmppConfiguration':
                         continue
-                    from_bound = any(g.nodes[j]['k'] == 'mem' and 'BoundAddress::' in (g.nodes[j].get('f') or '') for a in n.get('args', []) for j in g.walk(a))
+                    def bound_in(x, depth=0):
+                        for j in g.walk(x):
+                            m = g.nodes[j]
+                            if m['k'] == 'mem' and 'BoundAddress::' in (m.get('f') or ''):
+                                return True
+                            if m['k'] == 'var' and m.get('vk') == 'local' and depth < 3:
+                                d_ = g.single_def(m.get('decl'))
+                                if d_ is not None and bound_in(d_, depth + 1):
+                                    return True
+                        return False
+                    from_bound = any(bound_in(a) for a in n.get('args', []))
                     if from_bound:
                         for w in sorted(written(c)):
                             if w not in out:
